@@ -133,6 +133,10 @@ func (msg *Message) UnmarshalXML(d *xml.Decoder, start xml.StartElement) error {
 					err = d.DecodeElement(&msg.Subject, &tt)
 				case "error":
 					err = d.DecodeElement(&msg.Error, &tt)
+				default:
+					// Unknown child: skip it entirely, so that its own descendants (which may be
+					// named like this stanza, e.g. a forwarded message) are not mistaken for ours.
+					err = d.Skip()
 				}
 				if err != nil {
 					return err
